@@ -590,3 +590,32 @@ func (g *Grammar) KernelSubsetHazard() bool {
 	}
 	return false
 }
+
+// HasUnproductive reports whether some non-terminal derives no terminal string at all.
+func (g *Grammar) HasUnproductive() bool {
+	prodv := map[string]bool{}
+	for changed := true; changed; {
+		changed = false
+		for _, p := range g.Prods {
+			if prodv[p.Head] {
+				continue
+			}
+			ok := true
+			for _, s := range p.Body {
+				if g.isNT(s) && !prodv[s] {
+					ok = false
+				}
+			}
+			if ok {
+				prodv[p.Head] = true
+				changed = true
+			}
+		}
+	}
+	for _, n := range g.NTs {
+		if !prodv[n] {
+			return true
+		}
+	}
+	return false
+}
